@@ -142,8 +142,14 @@ class SSHChannel(log.Logger):
         if self.extBuf:
             b = self.extBuf
             self.extBuf = []
+            # A pending loseConnection() must not be acted upon by
+            # writeExtended() while entries of the old buffer still wait in b.
+            closing, self.closing = self.closing, 0
             for type, data in b:
                 self.writeExtended(type, data)
+            self.closing = closing
+            if closing:
+                self.loseConnection()
 
     def requestReceived(self, requestType, data):
         """
